@@ -87,6 +87,10 @@ pub struct Local {
 }
 
 impl Local {
+    /// a free-standing accumulator (self-tests)
+    pub fn scratch() -> Local {
+        Local::new()
+    }
     fn new() -> Local {
         Local {
             cases: 0,
@@ -109,6 +113,14 @@ impl Local {
     /// count `n` real library calls whose result was compared with the reference
     pub fn trans(&mut self, n: u64) {
         self.transitions += n;
+    }
+    /// the current index stands for `n` additional enumerated cases (inner loops of a slice)
+    pub fn more_cases(&mut self, n: u64) {
+        self.cases += n;
+    }
+    /// count a non-trivial sub-case of an inner loop
+    pub fn nontrivial_sub(&mut self) {
+        self.nontrivial += 1;
     }
     /// mark the current case as non-trivial (at most once per case)
     pub fn nontrivial(&mut self) {
